@@ -84,6 +84,8 @@ def rule_reserve_and_codec(chk):
         """the expression is the task id as given, or its decoded form"""
         if isinstance(e, ast.Name) and e.id in idnames:
             return True
+        if isinstance(e, ast.Call) and isinstance(e.func, ast.Name) and e.func.id == "bytes" and len(e.args) == 1 and not e.keywords and isinstance(e.args[0], ast.Name) and e.args[0].id in idnames:
+            return True   # a bytes-like id (bytearray, memoryview) turned into bytes
         return isinstance(e, ast.Call) and isinstance(e.func, ast.Attribute) and e.func.attr == "decode" and isinstance(e.func.value, ast.Name) and e.func.value.id in idnames
     grew = True
     while grew:
@@ -92,8 +94,10 @@ def rule_reserve_and_codec(chk):
             if isinstance(n_, ast.Assign) and len(n_.targets) == 1 and isinstance(n_.targets[0], ast.Name) and n_.targets[0].id not in idnames:
                 nm = n_.targets[0].id
                 vals_ = [v for v in assigned_values(ct, nm)]
-                if vals_ and all(v is not None and (from_param(v) or (isinstance(v, ast.Call) and isinstance(v.func, ast.Attribute) and v.func.attr == "decode"
-                                                                     and isinstance(v.func.value, ast.Name) and v.func.value.id == nm)) for v in vals_) \
+                self_bytes = lambda v: isinstance(v, ast.Call) and isinstance(v.func, ast.Name) and v.func.id == "bytes" and len(v.args) == 1 and not v.keywords \
+                    and isinstance(v.args[0], ast.Name) and v.args[0].id == nm
+                if vals_ and all(v is not None and (from_param(v) or self_bytes(v) or (isinstance(v, ast.Call) and isinstance(v.func, ast.Attribute) and v.func.attr == "decode"
+                                                                                      and isinstance(v.func.value, ast.Name) and v.func.value.id == nm)) for v in vals_) \
                         and any(from_param(v) for v in vals_):
                     idnames.add(nm)
                     grew = True
@@ -192,6 +196,46 @@ def rule_reserve_and_codec(chk):
         dec_ok = True
     if not dec_ok:
         raise AnalysisError("TaskLevel.fromString: decoder shape not modelled")
+    # fromString may refuse nothing toString can produce: a rejection guarded by a regular expression is decided on witnesses
+    import re as _re
+    fcfg = ctx.cfg(fs)
+    witnesses = ["/", "/1", "/9", "/10", "/2/1", "/1/20/300", "/1234567890/1", "/100"]
+    for rn in [n for n in fcfg.live if n.kind == "raise_stmt"]:
+        decided = False
+        for t, lab in fcfg.guards_of(rn):
+            if t.kind != "test":
+                continue
+            e, lab2 = X.strip_not(X.inline(fs, t.exprs[0]), lab)
+            call, when_none = None, None
+            if isinstance(e, ast.Compare) and len(e.ops) == 1 and isinstance(e.comparators[0], ast.Constant) and e.comparators[0].value is None and isinstance(e.left, ast.Call):
+                call = e.left
+                when_none = (lab2 == "true") == isinstance(e.ops[0], (ast.Is, ast.Eq))
+            elif isinstance(e, ast.Call):
+                call, when_none = e, lab2 == "false"
+            if call is None or not isinstance(call.func, ast.Attribute) or call.func.attr not in ("fullmatch", "match", "search"):
+                continue
+            recv = call.func.value
+            pat = None
+            r = p.resolve_expr_static(fs.module, fs, recv) if isinstance(recv, (ast.Name, ast.Attribute)) else None
+            if r and r[0] == "modvar":
+                vals = [v for v in r[1].assigns.get(r[2], []) if isinstance(v, ast.Call)]
+                if vals and vals[0].args:
+                    okp, pat = ctx.try_fold(r[1], vals[0].args[0])
+            elif r and r[0] == "ext" and r[1] == "re" and call.args:
+                okp, pat = ctx.try_fold(fs, call.args[0])
+            if not isinstance(pat, str) or not when_none:
+                continue
+            try:
+                rx = _re.compile(pat)
+            except _re.error:
+                raise AnalysisError("fromString: the guard's regular expression %r does not compile" % pat)
+            refused = [w for w in witnesses if getattr(rx, call.func.attr)(w) is None]
+            decided = True
+            if refused:
+                problems.append("fromString raises unless the string matches %r, which refuses %s: serialized positions toString produces (any index containing the digit 0, e.g. the 10th child) "
+                                "can no longer be continued" % (pat, refused[:4]))
+        if not decided:
+            raise AnalysisError("TaskLevel.fromString raises at line %d under a condition the analyser does not model" % rn.lineno)
     chk.req(not problems, "C06.codec", "TaskLevel.toString<->fromString:agree", chk.where(fs),
             good="join %r / split %r, int per non-empty segment" % (jsep, jsep), fail="; ".join(problems))
 
@@ -292,6 +336,26 @@ def rule_once(chk):
     chk.req(okorder, "C06.once", "preserve_context:rejected-calls-log-nothing", where,
             good="the single-use guard is passed before the task is continued",
             fail="the task is continued (continue_task) before the single-use guard is checked: every rejected extra call logs a start and a failed end at the one reserved position, colliding with the accepted call's messages")
+    # what preserve_context hands out is that guarded callable itself: nothing that can fail or run f sits in front of the guard
+    pcfg = ctx.cfg(pc)
+    for r in common.returns_of(pcfg):
+        v = X.inline(pc, r.ast.value) if r.ast.value is not None else None
+        if isinstance(v, ast.Name) and v.id in (fparam, g.name):
+            continue
+        runs = [x for x in ast.walk(v) if isinstance(x, ast.Attribute) and x.attr == "run"] if v is not None else []
+        shared = None
+        for x in runs:
+            base = X.inline(pc, x.value)
+            if isinstance(base, ast.Call) and unparse(base.func).split(".")[-1] == "copy_context":
+                shared = x
+        if shared is not None and any(isinstance(y, ast.Name) and y.id == g.name for y in ast.walk(v)):
+            chk.bad("C06.once", "preserve_context:returns-the-guarded-callable", chk.where(pc, r.lineno),
+                    "the callable handed out is %s: every invocation enters the one Context copied when preserve_context was called, and a Context that is already entered "
+                    "(an overlapping or re-entrant second call) makes Context.run raise RuntimeError before the single-use guard is reached, instead of TooManyCalls" % unparse(r.ast.value)[:80])
+            continue
+        raise AnalysisError("preserve_context returns %s (not the guarded callable itself; not modelled)" % (unparse(r.ast.value)[:60] if r.ast.value is not None else None))
+    if not any(o.rule == "C06.once" and o.construct == "preserve_context:returns-the-guarded-callable" for o in chk.obs):
+        chk.ok("C06.once", "preserve_context:returns-the-guarded-callable", chk.where(pc), "every return of preserve_context is f itself (no current action) or the guarded callable")
     # TooManyCalls on the failing arm
     raises = [n for n in cfg.live if n.kind == "raise_stmt" and "TooManyCalls" in unparse(n.ast)]
     chk.req(bool(raises), "C06.once", "preserve_context:later-calls-raise-TooManyCalls", where, good="raise TooManyCalls on the failing arm",
